@@ -281,6 +281,14 @@ def cached(component: str, tier: str, compute, extra: str = ""):
 
 def prune_cache(keep: int = 60) -> None:
     try:
+        now = time.time()
+        for f in os.listdir(CACHE):
+            full = os.path.join(CACHE, f)
+            if (f.endswith(".lock") or f.startswith("built-") or f.endswith(".tmp")) and now - os.path.getmtime(full) > 6 * 3600:
+                os.remove(full)
+    except OSError:
+        pass
+    try:
         files = [os.path.join(CACHE, f) for f in os.listdir(CACHE) if f.endswith(".json")]
         files.sort(key=os.path.getmtime, reverse=True)
         for f in files[keep:]:
